@@ -51,9 +51,10 @@ Theorem C18_ts_ignores_trailer : ts_ignores_trailer_stmt. Proof. exact ts_ignore
 Theorem C18_map_laws_bytewise : map_laws lex_cmp. Proof. exact (map_laws_ok bytes lex_cmp lex_preorder_ok). Qed.
 Theorem C18_map_laws_timestamp : map_laws ts_cmp. Proof. exact (map_laws_ok bytes ts_cmp ts_preorder_ok). Qed.
 
-(* the range entry point: the full statement (bpt_range_statement) is refuted; it holds outside the listed class *)
-Theorem C18_bpt_range_refuted : bpt_range_refuted_stmt. Proof. exact bpt_range_refuted_ok. Qed.
-Theorem C18_bpt_range_outside_known : bpt_range_outside_known_stmt. Proof. exact bpt_range_outside_known_ok. Qed.
+(* the range entry point returns what the ordered map returns, for every pair of bounds (finding F30 repaired, fix 83ce498);
+   the second theorem is the regression record of the old reading *)
+Theorem C18_bpt_range : bpt_range_statement. Proof. exact bpt_range_statement_ok. Qed.
+Theorem C18_bpt_range_old_refuted : bpt_range_old_refuted_stmt. Proof. exact bpt_range_old_refuted_ok. Qed.
 Theorem C18_bpt_range_nonempty_start : bpt_range_nonempty_start_stmt. Proof. exact bpt_range_nonempty_start_ok. Qed.
 
 (* ---- (2) page allocator ---- *)
